@@ -320,7 +320,52 @@ func c07OnlyExpiredAs(c *Ctx, m *Module, ruleExp, ruleKey string) {
 			k, ok := constOf(a[1])
 			return ok && k == "."+m.ConstVal("internal/counter", "FileVersion")+".count"
 		})), "count files are selected by the suffix .<FileVersion>.count")
+		// … and by nothing else about the name: a program may be called anything ("local.agent")
+		var subject ssa.Value
+		for _, f := range factsAt(st) {
+			if cl, ok := f.Cond.(*ssa.Call); ok && calleeName(&cl.Call) == "strings.HasSuffix" && f.Pol {
+				if k, isC := constOf(cl.Call.Args[1]); isC && strings.HasSuffix(k, ".count") {
+					subject = strip(cl.Call.Args[0])
+				}
+			}
+		}
+		extra := ""
+		for _, f := range factsAt(st) {
+			var subj ssa.Value
+			var what string
+			if kind, sv, pv, isT := affixTest(f.Cond); isT {
+				subj, what = strip(sv), kind+"(name, "+describe(pv)+")"
+			} else if cl, ok := f.Cond.(*ssa.Call); ok && strings.HasPrefix(calleeName(&cl.Call), "strings.") && len(cl.Call.Args) >= 1 {
+				subj, what = strip(cl.Call.Args[0]), calleeName(&cl.Call)
+			} else if bo, ok := f.Cond.(*ssa.BinOp); ok && (bo.Op == token.EQL || bo.Op == token.NEQ) {
+				if _, isC := constOf(bo.Y); isC {
+					subj, what = strip(bo.X), "comparison with "+describe(bo.Y)
+				}
+			}
+			if subj == nil || subject == nil || !sameNameValue(subj, subject) {
+				continue
+			}
+			if k, isC := constOfAffix(f.Cond); isC && strings.HasSuffix(k, ".count") && f.Pol {
+				continue
+			}
+			extra = fmt.Sprintf("%s is %v", what, f.Pol)
+		}
+		r.Check(ruleExp, "findWork/no other test of the name decides whether a count file is collected", m.Pos(st.Pos()), subject != nil && extra == "",
+			"every file whose name ends in .<FileVersion>.count is a count file, whatever else its name contains; found: "+extra)
 	}
+}
+
+// sameNameValue: two values denote the same file name (the same value, or two calls of Name() on the same entry).
+func sameNameValue(a, b ssa.Value) bool {
+	return a == b || describe(a) == describe(b)
+}
+
+// constOfAffix: the constant pattern of a prefix/suffix test.
+func constOfAffix(cond ssa.Value) (string, bool) {
+	if _, _, pv, isT := affixTest(cond); isT {
+		return constOf(pv)
+	}
+	return "", false
 }
 
 // c07Writers: no os.WriteFile/Create/Rename of a report name in LocalDir other than exclusiveWrite.
